@@ -108,11 +108,13 @@ Print Assumptions xref_stream_rt.
 
 (* a stream whose /Length is missing, negative, unresolvable (declared = None), beyond
    the file, right, or wrong and not in front of white space + endstream is delimited
-   by the EOL that precedes endstream *)
+   by the EOL that precedes endstream: exactly one end-of-line marker is taken off, so data
+   that itself ends in LF, CR LF, LF LF ... reads back whole.  The one exception cannot be
+   decided without /Length: data ending in CR in front of a bare LF marker (no_cr_before_lf) *)
 Theorem stream_extent :
   forall body e0 e1 rest declared,
     eol_before_data e0 -> eol_after_data e1 ->
-    no_trailing_eol body ->
+    no_cr_before_lf body e1 ->
     find_eol_endstream body = None ->
     (declared = None \/
      exists d, declared = Some d /\
@@ -221,11 +223,11 @@ Example xref_stream_rt_ex :
 Proof. split; vm_compute; reflexivity. Qed.
 
 Example stream_extent_ex :
-  let body := [120; 10; 101; 110; 100; 115; 116; 114; 101; 97; 120]%N in     (* "x\nendstreax" *)
-  no_trailing_eol body /\ find_eol_endstream body = None
-  /\ endstream_at (body ++ [13; 10]%N ++ kw_endstream ++ [10]%N) 3 = false
-  /\ Extent.stream_extent ([10]%N ++ body ++ [13; 10]%N ++ kw_endstream ++ [10]%N) (Some 3%Z) = Ok (1%nat, 11%nat).
-Proof. repeat split; vm_compute; reflexivity. Qed.
+  let body := [120; 10; 101; 110; 100; 115; 116; 114; 101; 97; 120; 13; 10]%N in     (* "x\nendstreax\r\n" *)
+  no_cr_before_lf body [10]%N /\ find_eol_endstream body = None
+  /\ endstream_at (body ++ [10]%N ++ kw_endstream ++ [10]%N) 3 = false
+  /\ Extent.stream_extent ([10]%N ++ body ++ [10]%N ++ kw_endstream ++ [10]%N) (Some 3%Z) = Ok (1%nat, 13%nat).
+Proof. split; [intros _; reflexivity|]. repeat split; vm_compute; reflexivity. Qed.
 
 (* a history with a classic revision, an xref-stream update and a hybrid update, rendered
    under some choices: the hypotheses of read_render hold *)
